@@ -34,7 +34,7 @@ Proof.
   - specialize (H 0). discriminate.
   - specialize (H 0). discriminate.
   - pose proof (H 0) as H0. cbn in H0. injection H0 as <-. f_equal. apply IH. intros i.
-    specialize (H (i + 1)). unfold nthN in *. replace (N.to_nat (i + 1)) with (S (N.to_nat i)) in H by lia. exact H.
+    specialize (H (i + 1)). rewrite ?nthN_eq in *. replace (N.to_nat (i + 1)) with (S (N.to_nat i)) in H by lia. exact H.
 Qed.
 Lemma option_map_map {A B C} (g : A -> B) (h : B -> C) (o : option A) :
   option_map h (option_map g o) = option_map (fun x => h (g x)) o.
@@ -312,9 +312,9 @@ Section SyncAggregate.
     (forall x, In x bals -> x <= M) -> forall x, In x (go_step pr bals (i, b)) -> x <= M + pr.
   Proof.
     intros H x Hin. apply In_nth_error in Hin. destruct Hin as [k Hk].
-    assert (Hk' : nthN (go_step pr bals (i, b)) (N.of_nat k) = Some x) by (unfold nthN; rewrite Nat2N.id; exact Hk).
+    assert (Hk' : nthN (go_step pr bals (i, b)) (N.of_nat k) = Some x) by (rewrite nthN_eq, Nat2N.id; exact Hk).
     rewrite nthN_go_step in Hk'. destruct (nthN bals (N.of_nat k)) as [y|] eqn:Hy; [|discriminate].
-    injection Hk' as <-. assert (y <= M) by (apply H; unfold nthN in Hy; eapply nth_error_In; exact Hy).
+    injection Hk' as <-. assert (y <= M) by (apply H; rewrite nthN_eq in Hy; eapply nth_error_In; exact Hy).
     unfold go_val. destruct (i =? N.of_nat k), b; lia.
   Qed.
 
@@ -328,7 +328,7 @@ Section SyncAggregate.
     cbn [sync_loop combine fold_left].
     assert (Hi : i < N.of_nat (length bals)) by (apply Hidx; left; reflexivity).
     destruct (nthN_lt_Some bals i Hi) as [x Hx].
-    assert (Hx' : x <= M) by (apply HM; unfold nthN in Hx; eapply nth_error_In; exact Hx).
+    assert (Hx' : x <= M) by (apply HM; rewrite nthN_eq in Hx; eapply nth_error_In; exact Hx).
     cbn [length] in Hb.
     assert (Hstep : (if b then go_increase_balance bals i pr else go_decrease_balance bals i pr) = Ok (go_step pr bals (i, b))).
     { unfold go_increase_balance, go_decrease_balance, go_step, addb, subb. rewrite Hx. destruct b.
@@ -501,7 +501,7 @@ Section SyncAggregate.
     destruct (nthN_lt_Some G p HpG) as [gp Hgp].
     unfold go_increase_balance. rewrite Hgp.
     assert (Hgpb : gp <= 2 ^ 63 + N.of_nat (length (combine (be_sync_indices epc) bits)) * sync_pr st).
-    { apply (go_fold_bound (sync_pr st) _ (balances st) (2 ^ 63) HM). unfold nthN in Hgp. eapply nth_error_In. exact Hgp. }
+    { apply (go_fold_bound (sync_pr st) _ (balances st) (2 ^ 63) HM). rewrite nthN_eq in Hgp. eapply nth_error_In. exact Hgp. }
     rewrite combine_length in Hgpb.
     assert (Hcnt : N.of_nat (length (select_bits bits (sc_pubkeys (current_sync_committee st)))) <= N.of_nat (length bits)).
     { pose proof (select_bits_length_le bits (sc_pubkeys (current_sync_committee st))). lia. }
